@@ -668,6 +668,9 @@ def plan_C09(rep, seed, tier):
     rv(rep, binp, 'dec-random', seed, tier, extra=['--repl', 'on', '--sinks', 'utf8,utf16', '--manual'], tag='dec-random-repl')
     rv(rep, binp, 'enc-pairs', seed, tier, extra=['--repl', 'on', '--manual', '--thin', '2' if tier == 'quick' else '1'], tag='enc-pairs-repl')
     rv(rep, binp, 'enc-random', seed, tier, extra=['--repl', 'on', '--manual'], tag='enc-random-repl')
+    # the same booleans as returned by the non-streaming API (Encoding::decode* / encode), incl. inputs whose replacement
+    # characters outgrow the first allocation
+    rv(rep, binp, 'oneshot', seed, tier, extra=['--thin', '4' if tier == 'quick' else '2'], tag='oneshot-flags')
     rep.cov['rule'] = ('with-replacement methods on cut-set and random histories and on whole texts incl. every decimal-length boundary of the numeric character reference: output = Standard items with one U+FFFD per error item / one NCR per unmappable atom, '
                        'had_errors / had_unmappables = an error item / NCR atom was emitted in that call (the monitor aligns output with the Standard item by item); '
                        'directly: every call is also given to a twin converter driven by the documented manual procedure (decoders: the caller\'s loop over '
